@@ -59,10 +59,9 @@ def r1_functions(ctx):
         key = "fn:%s" % sym
         if sym not in hdr.funcs:
             e = rust[sym]
-            if e["pub"]:
-                out.append(violated("C18.R1", key, e["span"], "exported by the library but not declared in include/pathrs.h"))
-            else:
-                out.append(holds("C18.R1", key, e["span"], "not exported (private)"))
+            # rustc exports every #[no_mangle] function from a cdylib/staticlib, whatever its Rust visibility or ABI
+            out.append(violated("C18.R1", key, e["span"], "exported by the library (#[no_mangle]%s, abi %s) but not declared in include/pathrs.h" %
+                                ("" if e["pub"] else ", not even `pub`", e["abi"])))
             continue
         if sym not in rust:
             out.append(violated("C18.R1", key, "include/pathrs.h", "declared in the header but not defined as #[no_mangle] extern \"C\" in the library"))
